@@ -11,7 +11,7 @@ from typing import Dict, List, Optional, Tuple
 
 from . import vocab
 
-FLOW_KINDS = ("jmp", "jcc", "call", "ret", "ijmp", "icall")
+FLOW_KINDS = ("jmp", "jcc", "call", "ret", "ijmp", "icall", "syscall")
 
 
 @dataclass
